@@ -295,4 +295,197 @@ theorem confInv_start (A N0 : List String) (hA : ∀ a ∈ A, a ∈ N0) (hnd : A
   · intro k1 k2 c h1; rw [hl] at h1; split at h1 <;> cases h1
 
 
+
+/-! ## the conflict layer composed with the base renamers (`funcState`) -/
+
+
+
+
+
+
+/-- the base name of a value that the base renamer already knows (`rename=False`: the table entry;
+    `rename=True`: `v<index+1>`) -/
+def baseName (o : Opts) (st : St) (v : String) : String :=
+  if o.rename then "v" ++ Nat.repr (st.shortKeys.idxOf v + 1) else pyT st.uniq v
+
+/-- `v` is known to the base renamer -/
+def Known (o : Opts) (st : St) (v : String) : Prop :=
+  v ≠ "" ∧ (if o.rename then v ∈ st.shortKeys else (st.uniq.lookup v).isSome = true)
+
+/-- the state with the conflict layer's tables replaced -/
+def withConf (st : St) (r : List (String × Option String) × List String) : St :=
+  { st with attrRen := r.1, namesUsed := r.2 }
+
+/-- a request for a known value only touches the conflict layer -/
+theorem translateVar_known (o : Opts) (st : St) (hm : QuietRemaps st) (v : String) (hk : Known o st v) :
+    translateVar o st v =
+      ((conflictStep st.attrRen st.namesUsed (baseName o st v)).1,
+       withConf st (conflictStep st.attrRen st.namesUsed (baseName o st v)).2) := by
+  obtain ⟨hv, hk⟩ := hk
+  unfold translateVar withConf
+  have : (v == "") = false := by simpa using hv
+  simp only [this, Bool.false_eq_true, if_false, hm v, newRenamer, baseName]
+  cases hr : o.rename
+  · simp only [hr, Bool.false_eq_true, if_false] at hk ⊢
+    obtain ⟨r, hl⟩ := Option.isSome_iff_exists.mp hk
+    simp only [uniqueName, uniqStep, hl, pyT, hv, if_false, Option.getD_some]
+  · simp only [hr, if_true] at hk ⊢
+    simp only [shortName, shortStep, if_pos hk]
+
+theorem translateVars_known (o : Opts) : ∀ (vs : List String) (st : St), QuietRemaps st → (∀ v ∈ vs, Known o st v) →
+    translateVars o st vs =
+      ((conflictRun st.attrRen st.namesUsed (vs.map (baseName o st))).1,
+       withConf st (conflictRun st.attrRen st.namesUsed (vs.map (baseName o st))).2)
+  | [], st, _, _ => rfl
+  | v :: vs, st, hm, hk => by
+    have h1 := translateVar_known o st hm v (hk v (by simp))
+    have ih := translateVars_known o vs (withConf st (conflictStep st.attrRen st.namesUsed (baseName o st v)).2)
+      hm (fun w hw => hk w (by simp [hw]))
+    simp only [translateVars, h1, ih, List.map_cons, conflictRun]
+    rfl
+
+
+
+theorem translateVars_short_state (o : Opts) (hr : o.rename = true) :
+    ∀ (ns : List String) (st : St), st.attrRen = [] → QuietRemaps st → (∀ n ∈ ns, n ≠ "") →
+      translateVars o st ns =
+        ((shortRun st.shortKeys ns).1.map (fun k => "v" ++ Nat.repr (k + 1)),
+         { st with shortKeys := (shortRun st.shortKeys ns).2 })
+  | [], st, _, _, _ => rfl
+  | n :: ns, st, ha, hm, hne => by
+    have ih := translateVars_short_state o hr ns
+      { st with shortKeys := (shortStep st.shortKeys n).2 } ha hm (fun x hx => hne x (by simp [hx]))
+    simp only [translateVars, translateVar_fresh_short o st n hr ha hm (hne n (by simp)), List.map_cons, shortRun, ih]
+
+/-- the indices the short mapper hands out are the positions in its final key list -/
+theorem shortRun_indices (ks keys : List String) (hnd : keys.Nodup) :
+    (shortRun keys ks).1 = ks.map (fun k => (shortRun keys ks).2.idxOf k) ∧ ∀ k ∈ ks, k ∈ (shortRun keys ks).2 := by
+  obtain ⟨_, _, hlen, hall⟩ := shortRun_spec ks keys hnd
+  constructor
+  · apply List.ext_getElem
+    · simp [hlen]
+    · intro i h1 h2
+      have hi : i < ks.length := by simpa [hlen] using h1
+      simp only [List.getElem_map]
+      exact (hall i hi h1).2
+  · intro k hk
+    obtain ⟨i, hi, rfl⟩ := List.getElem_of_mem hk
+    exact (hall i hi (by rw [hlen]; exact hi)).1
+
+
+
+theorem plain_attr_nil {st : St} (h : Plain st) : Plain { st with attrRen := [] } :=
+  ⟨rfl, h.remap, h.consts, h.fns⟩
+
+/-- `funcState` under `rename=False` -/
+theorem funcState_uniq (o : Opts) (hr : o.rename = false) (d : Nat) (f : FunctionP) (st0 : St) (hp : Plain st0) :
+    (funcState o d f st0).attrRen = f.attrs.reverse.map (·, none)
+    ∧ (funcState o d f st0).namesUsed = f.attrs.reverse ++ f.usedOrder.map (pyT (uniqRun st0.uniq f.usedOrder))
+    ∧ (funcState o d f st0).uniq = uniqRun st0.uniq f.usedOrder
+    ∧ QuietRemaps (funcState o d f st0) := by
+  unfold funcState
+  simp only [translateVars_uniq o hr f.usedOrder _ (plain_attr_nil hp), List.append_nil]
+  exact ⟨trivial, trivial, trivial, hp.remap⟩
+
+/-- `funcState` under `rename=True` -/
+theorem funcState_short (o : Opts) (hr : o.rename = true) (d : Nat) (f : FunctionP) (st0 : St) (hp : Plain st0)
+    (hne : ∀ v ∈ f.usedOrder, v ≠ "") :
+    (funcState o d f st0).attrRen = f.attrs.reverse.map (·, none)
+    ∧ (funcState o d f st0).namesUsed = f.attrs.reverse ++
+        (shortRun st0.shortKeys f.usedOrder).1.map (fun k => "v" ++ Nat.repr (k + 1))
+    ∧ (funcState o d f st0).shortKeys = (shortRun st0.shortKeys f.usedOrder).2
+    ∧ QuietRemaps (funcState o d f st0) := by
+  unfold funcState
+  simp only [translateVars_short_state o hr f.usedOrder { st0 with attrRen := [] } rfl hp.remap hne, List.append_nil]
+  exact ⟨trivial, trivial, trivial, hp.remap⟩
+
+
+
+/-- the conflict layer composed with an injective base renamer `B` -/
+theorem conflict_compose (A N0 : List String) (hA : ∀ a ∈ A, a ∈ N0) (hnd : A.Nodup) (B : String → String)
+    (vs : List String) (hN : ∀ v ∈ vs, B v ∈ N0) (hB : ∀ a ∈ vs, ∀ b ∈ vs, B a = B b → a = b) :
+    (conflictRun (A.map (·, none)) N0 (vs.map B)).1.length = vs.length
+    ∧ (∀ r ∈ (conflictRun (A.map (·, none)) N0 (vs.map B)).1, r ∉ A)
+    ∧ ∀ i j (hi : i < vs.length) (hj : j < vs.length),
+        ((conflictRun (A.map (·, none)) N0 (vs.map B)).1[i]? = (conflictRun (A.map (·, none)) N0 (vs.map B)).1[j]?
+          ↔ vs[i] = vs[j]) := by
+  obtain ⟨hinv, _, hrs, hset, hna⟩ :=
+    conflictRun_spec hA (vs.map B) _ _ (confInv_start A N0 hA hnd)
+      (fun n hn => by obtain ⟨v, hv, rfl⟩ := List.mem_map.mp hn; exact hN v hv)
+  refine ⟨by rw [hrs]; simp, hna, ?_⟩
+  intro i j hi hj
+  rw [hrs]
+  have hi' : i < (vs.map B).length := by simpa using hi
+  have hj' : j < (vs.map B).length := by simpa using hj
+  simp only [List.getElem?_map, List.getElem?_eq_getElem hi, List.getElem?_eq_getElem hj, Option.map_some,
+    Option.some.injEq]
+  constructor
+  · intro e
+    have hmi : B vs[i] ∈ vs.map B := List.mem_map.mpr ⟨_, List.getElem_mem hi, rfl⟩
+    have hmj : B vs[j] ∈ vs.map B := List.mem_map.mpr ⟨_, List.getElem_mem hj, rfl⟩
+    have := confRes_inj hinv (hN _ (List.getElem_mem hi)) (hN _ (List.getElem_mem hj)) (hset _ hmi) (hset _ hmj) e
+    exact hB _ (List.getElem_mem hi) _ (List.getElem_mem hj) this
+  · intro e; rw [e]
+
+
+
+theorem function_names_injective_aux (o : Opts) (d : Nat) (f : FunctionP) (st0 : St)
+    (hp : Plain st0) (hT : TblInv st0.uniq) (hK : st0.shortKeys.Nodup)
+    (hattrs : f.attrs.Nodup) (hne : ∀ v ∈ f.usedOrder, v ≠ "")
+    (vs : List String) (hvs : ∀ v ∈ vs, v ∈ f.usedOrder) :
+    (translateVars o (funcState o d f st0) vs).1.length = vs.length
+    ∧ (∀ r ∈ (translateVars o (funcState o d f st0) vs).1, r ∉ f.attrs)
+    ∧ ∀ i j (hi : i < vs.length) (hj : j < vs.length),
+        ((translateVars o (funcState o d f st0) vs).1[i]? = (translateVars o (funcState o d f st0) vs).1[j]?
+          ↔ vs[i] = vs[j]) := by
+  have hndA : f.attrs.reverse.Nodup := (List.reverse_perm f.attrs).nodup_iff.mpr hattrs
+  have hnotin : ∀ r, r ∉ f.attrs.reverse → r ∉ f.attrs := fun r h hr => h (List.mem_reverse.mpr hr)
+  cases hr : o.rename
+  · -- the unique-name mapper
+    obtain ⟨hA, hN, hU, hQ⟩ := funcState_uniq o hr d f st0 hp
+    have hTT : TblInv (uniqRun st0.uniq f.usedOrder) := tblInv_uniqRun _ hT
+    have hpres : ∀ v ∈ f.usedOrder, ((uniqRun st0.uniq f.usedOrder).lookup v).isSome = true := by
+      intro v hv
+      rcases present_uniqRun f.usedOrder st0.uniq v hv with h | h
+      · exact absurd h (hne v hv)
+      · exact h
+    have hknown : ∀ v ∈ vs, Known o (funcState o d f st0) v := by
+      intro v hv
+      refine ⟨hne v (hvs v hv), ?_⟩
+      simp only [hr, Bool.false_eq_true, if_false, hU]
+      exact hpres v (hvs v hv)
+    have hbase : ∀ v, baseName o (funcState o d f st0) v = pyT (uniqRun st0.uniq f.usedOrder) v := by
+      intro v; simp only [baseName, hr, Bool.false_eq_true, if_false, hU]
+    rw [translateVars_known o vs _ hQ hknown, hA, hN, funext hbase]
+    have := conflict_compose f.attrs.reverse (f.attrs.reverse ++ f.usedOrder.map (pyT (uniqRun st0.uniq f.usedOrder)))
+      (fun a ha => List.mem_append_left _ ha) hndA (pyT (uniqRun st0.uniq f.usedOrder)) vs
+      (fun v hv => List.mem_append_right _ (List.mem_map.mpr ⟨v, hvs v hv, rfl⟩))
+      (fun a ha b hb e => pyT_inj hTT (hne a (hvs a ha)) (hne b (hvs b hb))
+        (Or.inr (hpres a (hvs a ha))) (Or.inr (hpres b (hvs b hb))) e)
+    exact ⟨this.1, fun r hr' => hnotin r (this.2.1 r hr'), this.2.2⟩
+  · -- the short-name mapper
+    obtain ⟨hA, hN, hS, hQ⟩ := funcState_short o hr d f st0 hp hne
+    obtain ⟨hidx, hmem⟩ := shortRun_indices f.usedOrder st0.shortKeys hK
+    have hknown : ∀ v ∈ vs, Known o (funcState o d f st0) v := by
+      intro v hv
+      refine ⟨hne v (hvs v hv), ?_⟩
+      simp only [hr, if_true, hS]
+      exact hmem v (hvs v hv)
+    have hbase : ∀ v, baseName o (funcState o d f st0) v =
+        "v" ++ Nat.repr ((shortRun st0.shortKeys f.usedOrder).2.idxOf v + 1) := by
+      intro v; simp only [baseName, hr, if_true, hS]
+    rw [translateVars_known o vs _ hQ hknown, hA, hN, funext hbase]
+    have hren : (shortRun st0.shortKeys f.usedOrder).1.map (fun k => "v" ++ Nat.repr (k + 1)) =
+        f.usedOrder.map (fun v => "v" ++ Nat.repr ((shortRun st0.shortKeys f.usedOrder).2.idxOf v + 1)) := by
+      rw [hidx, List.map_map]; rfl
+    rw [hren]
+    have := conflict_compose f.attrs.reverse
+      (f.attrs.reverse ++ f.usedOrder.map (fun v => "v" ++ Nat.repr ((shortRun st0.shortKeys f.usedOrder).2.idxOf v + 1)))
+      (fun a ha => List.mem_append_left _ ha) hndA
+      (fun v => "v" ++ Nat.repr ((shortRun st0.shortKeys f.usedOrder).2.idxOf v + 1)) vs
+      (fun v hv => List.mem_append_right _ (List.mem_map.mpr ⟨v, hvs v hv, rfl⟩))
+      (fun a ha b hb e => idxOf_inj (hmem a (hvs a ha)) (hmem b (hvs b hb)) (short_label_inj e))
+    exact ⟨this.1, fun r hr' => hnotin r (this.2.1 r hr'), this.2.2⟩
+
+
 end OV.C13
